@@ -344,12 +344,12 @@ def validate_translator(fns, log):
     for (i, v) in vectors:
         ex = Exec(fns, 0, {})
         L = ("L", 0)
-        res = [(m, r) for (m, p, r) in ex.run("ReloadId::update", [Ref(L), Struct({0: BV(f"(_ bv{v} 64)")})], {L: Struct({0: BV(f"(_ bv{i} 64)")})})]
-        # concrete inputs: exactly one feasible path after constant evaluation by the solver
+        res = [(m, p, r) for (m, p, r) in ex.run("ReloadId::update", [Ref(L), Struct({0: BV(f"(_ bv{v} 64)")})], {L: Struct({0: BV(f"(_ bv{i} 64)")})})]
+        # concrete inputs: exactly one path is feasible; the others are unsat through their path conditions
         ok_any = False
-        for (m, r) in res:
+        for (m, p, r) in res:
             lines = ["(set-logic ALL)", "(declare-const retb Bool)", "(declare-const fin (_ BitVec 64))", f"(assert (= retb {r.t}))", f"(assert (= fin {ex.load(Ref(L, (0,)), m).t}))"]
-            # path conditions are not kept by this shortcut: use the semantics max/compare directly through the solver
+            lines += [f"(assert {c})" for c in p.conds]
             verdict, model, dt, raw = M.solve(lines, want_model_vars=["retb", "fin"])
             exp_ret, exp_fin = nat[("plain_update", i, v)]
             if verdict == "sat" and model.get("retb") == exp_ret and int(model.get("fin", "#x0")[2:], 16) == exp_fin:
